@@ -229,6 +229,40 @@ theorem interm_holds (st : Stored) (wf : WfLabel st) :
     rw [hb] at this
     simp [DType.maxVal]; omega
 
+/-- the range check of the frame transform never fires on the remapping path: the intermediate dtype is the stored one -/
+theorem range_ok_interm (st : Stored) (wf : WfLabel st) (interm : DType)
+    (hi : DType.ofCode (st.bitsStored : Int) = some interm) (keys : List Nat) :
+    (keys.all fun k => (st.frames.filter (fun f => f.key == k)).all (frameInRange st.bitsStored interm)) = true := by
+  have hna : rangeCheckActive st.bitsStored interm = false := by
+    rcases wf.bits with hb | hb
+    · rw [hb] at hi ⊢
+      have : interm = .u8 := by
+        have h8 : DType.ofCode ((8 : Nat) : Int) = some .u8 := rfl
+        rw [h8] at hi; exact (Option.some.inj hi).symm
+      subst this; rfl
+    · rw [hb] at hi ⊢
+      have : interm = .u16 := by
+        have h16 : DType.ofCode ((16 : Nat) : Int) = some .u16 := rfl
+        rw [h16] at hi; exact (Option.some.inj hi).symm
+      subst this; rfl
+  simp [frameInRange, hna]
+
+/-- … nor on the direct path when every stored value fits the output dtype -/
+theorem range_ok_direct (st : Stored) (wf : WfLabel st) (d : DType) (segs : List Nat)
+    (hall : ∀ s ∈ st.segNums, s ∈ segs) (hcap : (listMax segs : Int) ≤ d.maxVal) (keys : List Nat) :
+    (keys.all fun k => (st.frames.filter (fun f => f.key == k)).all (frameInRange st.bitsStored d)) = true := by
+  rw [List.all_eq_true]; intro k _
+  rw [List.all_eq_true]; intro f hf
+  unfold frameInRange
+  have hfm : f ∈ st.frames := (List.mem_filter.mp hf).1
+  have : (f.pix.all fun p => decide ((p : Int) ≤ d.maxVal)) = true := by
+    rw [List.all_eq_true]; intro p hp
+    rcases wf.described f hfm p hp with rfl | h
+    · have := one_le_maxVal d; simp; omega
+    · have := le_listMax segs p (hall p h)
+      simp; omega
+  simp [this]
+
 theorem labelmapRead_combined (st : Stored) (rq : Req) (d : DType) (wf : WfLabel st)
     (hc : rq.combine = true) (hne : rq.segs ≠ [])
     (hcap : (if rq.relabel then (rq.segs.length : Int) else (listMax rq.segs : Int)) ≤ d.maxVal) :
@@ -243,7 +277,10 @@ theorem labelmapRead_combined (st : Stored) (rq : Req) (d : DType) (wf : WfLabel
   simp only [bind, Except.bind, hc]
   by_cases hr : (!true || rq.relabel || decide ((0 : Int) < (nXor rq.segs st.segNums : Nat))) = true
   · obtain ⟨interm, hi, hfit⟩ := interm_holds st wf
-    simp only [hr, ↓reduceIte, hi, remapTableT_eq, Functor.map, Except.map, List.mapM_map, Function.comp_def]
+    have hrg : (!rq.keys.all fun k => (st.frames.filter (fun f => f.key == k)).all (frameInRange st.bitsStored interm)) = false := by
+      rw [range_ok_interm st wf interm hi]; rfl
+    simp only [hr, ↓reduceIte, hi, hrg, Bool.false_eq_true,
+      remapTableT_eq, Functor.map, Except.map, List.mapM_map, Function.comp_def]
     rw [mapM_ok _ (fun k => (rawLabels st k).map (outVal rq.segs rq.relabel)) rq.keys
       (fun k _ => labelmap_frame_combined_remap st rq d interm wf hc hfit hcap k)]
   · have hr' : (!true || rq.relabel || decide ((0 : Int) < (nXor rq.segs st.segNums : Nat))) = false := by
@@ -253,8 +290,12 @@ theorem labelmapRead_combined (st : Stored) (rq : Req) (d : DType) (wf : WfLabel
     have hx : nXor rq.segs st.segNums = 0 := by
       cases h : rq.relabel <;> simp [h] at hr'
       omega
-    simp only [hr', Bool.false_eq_true, ↓reduceIte, ofCode_code, pure, Except.pure, List.mapM_map, Function.comp_def]
-    rw [hrel] at hcap ⊢
+    rw [hrel] at hcap
+    have hrg : (!rq.keys.all fun k => (st.frames.filter (fun f => f.key == k)).all (frameInRange st.bitsStored d)) = false := by
+      rw [range_ok_direct st wf d rq.segs (nXor_zero_sub _ _ hx) (by simpa using hcap)]; rfl
+    simp only [hr', Bool.false_eq_true, ↓reduceIte, ofCode_code, hrg,
+      pure, Except.pure, List.mapM_map, Function.comp_def]
+    rw [hrel]
     rw [mapM_ok _ (fun k => (rawLabels st k).map (outVal rq.segs false)) rq.keys
       (fun k _ => labelmap_frame_combined_direct st rq d wf (nXor_zero_sub _ _ hx) (by simpa using hcap) k)]
 
@@ -341,7 +382,9 @@ theorem labelmapRead_stacked (st : Stored) (rq : Req) (d : DType) (wf : WfLabel 
     omega
   unfold labelmapRead
   rw [labelmapDecision_eq rq.combine rq.relabel d.code _ _ _ st.bitsStored wf.bits hlen1]
-  simp only [bind, Except.bind, hc, Bool.not_false, Bool.true_or, ↓reduceIte, hi, Bool.false_eq_true,
+  have hrg : (!rq.keys.all fun k => (st.frames.filter (fun f => f.key == k)).all (frameInRange st.bitsStored interm)) = false := by
+    rw [range_ok_interm st wf interm hi]; rfl
+  simp only [bind, Except.bind, hc, Bool.not_false, Bool.true_or, ↓reduceIte, hi, Bool.false_eq_true, hrg,
     remapTableT_eq, Functor.map, Except.map, List.mapM_map, Function.comp_def]
   rw [mapM_ok _ (fun k => (rawLabels st k).map (posVal rq.segs)) rq.keys
     (fun k _ => labelmap_frame_stacked st rq d interm wf hc hfit hlen' k)]
@@ -381,23 +424,24 @@ theorem framesAdmitted_eq (st : Stored) (a : Bool) (keys : List Nat) :
     simp only [List.all_cons, ih, List.any_cons]
     cases a <;> simp <;> grind
 
-/-- what an entry point refuses: frame number 0, or an unknown stack value without the assertion -/
+/-- what an entry point refuses: frame number 0, or a stack value unknown to the reference tables without the assertion -/
 theorem entryRefuses_eq (st : Stored) (mode : Mode) (a : Bool) (keys : List Nat) :
     entryRefuses st mode a keys = (zeroFrameRequested mode keys || (!a && missingRefused st mode keys)) := by
   unfold entryRefuses zeroFrameRequested missingRefused
   cases mode with
-  | known ks => simp
+  | bySource => simp
+  | div => simp
   | all => simp
-  | maxFrame =>
+  | frame uid =>
     simp only [framesAdmitted_eq]
-    cases a <;> cases (keys.any (· == 0)) <;>
+    cases a <;> cases (st.refs.contains uid) <;> cases (keys.any (· == 0)) <;>
       cases (keys.any fun k => decide (k > listMax (st.frames.map (·.key)))) <;> simp
 
 theorem read_eq_readCore (st : Stored) (mode : Mode) (a : Bool) (rq : Req)
     (h1 : rq.segs ≠ []) (h2 : rq.keys ≠ [])
     (h3 : ∀ k ∈ rq.keys, k ≠ 0) (hu : framesUnique st = true)
     (hm : a = true ∨ missingRefused st mode rq.keys = false) :
-    SegRead.read st mode a rq = readCore st rq := by
+    SegRead.read st mode a rq = readCore (effective st mode) rq := by
   unfold SegRead.read
   have e1 : rq.segs.isEmpty = false := by cases h : rq.segs <;> simp_all
   have e2 : rq.keys.isEmpty = false := by cases h : rq.keys <;> simp_all
